@@ -510,7 +510,14 @@ def run(ctx, repo, tier):
     # a group may be addressed through a local alias:  g = index_list[c]; g.extend(..); g.sort()
     alias_sub = {n.targets[0].id for n in ast.walk(fm.node) if isinstance(n, ast.Assign) and len(n.targets) == 1 and
                  isinstance(n.targets[0], ast.Name) and isinstance(n.value, ast.Subscript) and not isinstance(n.value.slice, ast.Slice)}
-    ext = [e for e in oa_m.events if e[0] in ("extend", "append") and ("[" in e[1] or e[1] in alias_sub) and e[4]]
+    # a group of the index list is a subscript of a list name (`internal_index_list[ci]`) or an alias of one; a dict built locally as a
+    # lookup table (`rows_of_cell.setdefault(cell, []).append(row)`) is not a group
+    import re as _re
+    local_dicts = {n.targets[0].id for n in ast.walk(fm.node) if isinstance(n, ast.Assign) and len(n.targets) == 1 and
+                   isinstance(n.targets[0], ast.Name) and (isinstance(n.value, (ast.Dict, ast.DictComp)) or
+                                                           (isinstance(n.value, ast.Call) and src(n.value.func) in ("dict", "defaultdict", "collections.defaultdict")))}
+    ext = [e for e in oa_m.events if e[0] in ("extend", "append") and e[4] and
+           ((_re.match(r"^\w+\[", e[1]) and e[1].split("[")[0] not in local_dicts) or e[1] in alias_sub)]
     sorts = [e for e in oa_m.events if e[0] == "sort"]
     ctx.instance("DOM", len(ext))
     for e in ext:
